@@ -678,4 +678,27 @@ def Ctx.opFg (c : Ctx) (sid : Sid) : Ctx :=
             else (c, t)
           c.putLive t) c
 
+/-- the connection is gone (Session.cleanUp → unsubAll → Topic.unregisterSession with init = false): every topic the session
+is attached to handles a leave on behalf of whoever the session is attached as; no replies -/
+def Ctx.opDrop (c : Ctx) (sid : Sid) : Ctx :=
+  match c.w.sess? sid with
+  | none => c
+  | some s =>
+    s.subs.foldl (fun c tn =>
+      match c.w.live? tn with
+      | none => c
+      | some t =>
+        if t.inactive then c else
+        match t.sessions.find? (·.1 = sid) with
+        | none => c
+        | some (_, suid) =>
+          let t := { t with sessions := t.sessions.filter (·.1 ≠ sid) }
+          let c := { c with w := c.w.detach sid tn }
+          -- a session still in the background was never counted
+          let pud := t.pud suid
+          let pud := if !s.bg then { pud with online := pud.online - 1 } else pud
+          let t := if !s.bg then t.setPud suid pud else t
+          let c := if pud.online = (0 : Int) then c.presOnline t { what := "off", src := suid, filterIn := modeRead } else c
+          c.putLive t) c
+
 end Tinode.World
